@@ -202,7 +202,7 @@ func C04(p *ir.Program, r *report.R) {
 		wf := ir.Calls(sv, "common.WriteFileAtomic")
 		if c.MustFind("K2", pvT+"save/WriteFileAtomic", sv, len(wf), "WriteFileAtomic call") {
 			r.Check("K2", pvT+"save/path", p.InstrPos(wf[0]), Arg(wf[0], 0) == "pv.filePath", "writes pv.filePath: "+Arg(wf[0], 0))
-			r.Check("K2", pvT+"save/content", p.InstrPos(wf[0]), strings.Contains(Arg(wf[0], 1), "ser.MarshalJSONIndent(") , "writes the JSON of the receiver: "+short(Arg(wf[0], 1), 120))
+			r.Check("K2", pvT+"save/content", p.InstrPos(wf[0]), strings.Contains(Arg(wf[0], 1), "ser.MarshalJSONIndent("), "writes the JSON of the receiver: "+short(Arg(wf[0], 1), 120))
 			// error is fatal: no normal return on the err != nil edge
 			found, _, tr := ir.FindPath(ir.PathQuery{From: ir.At(wf[0]), Target: ir.IsReturn, AvoidEdge: func(atoms []string) bool {
 				for _, a := range atoms {
